@@ -45,19 +45,22 @@ hz_harness!(hz_equiv_inv_cipher_round, 33, 40, |inp| {
     Some(b.0 == ra::xor(&ra::inv_round_core(&blk), &key))
 });
 
-// mix_columns / inv_mix_columns: one query each vs the oracle; "mutual inverses" then follows from the oracle lemma
-// c02_ni::fips_mc_inverse (InvMixColumns(MixColumns(c)) == c == MixColumns(InvMixColumns(c)) for every column).
-//@ harness name=hz_mix_columns prop=C17,C03 tier=quick bits=129 stub=1 est=100 variants=aes:ni+hazmat desc="hazmat::mix_columns == FIPS-197 MixColumns for all 2^128 blocks on either dispatch arm (the NI arm computes it as three AESIMC; CPUID symbolic)"
-hz_harness!(hz_mix_columns, 17, 40, |inp| {
-    ni_model::set_cpu(inp[16] & 1 == 1);
+// mix_columns / inv_mix_columns, intrinsics arm (the NI arm computes MixColumns as AESDECLAST then AESENC with zero keys, and
+// InvMixColumns as AESIMC).  The software arm of the same dispatcher lines is decided on the aes_force_soft builds by
+// soft_hazmat.rs (a symbolic CPUID here would put the fixsliced column mix next to the byte oracle in one query: a
+// wide-parity equivalence that does not finish); the dispatch itself is exercised with CPUID symbolic by the two round
+// harnesses above.  "Mutual inverses" follows from the oracle lemma soft_hazmat::hz_mix_inverse (additivity + single-byte basis).
+//@ harness name=hz_mix_columns prop=C17,C03 tier=quick bits=128 stub=1 est=100 variants=aes:ni+hazmat desc="hazmat::mix_columns == FIPS-197 MixColumns for all 2^128 blocks on the intrinsics arm (AESDECLAST then AESENC with zero round keys, concrete Intel-SDM instruction models)"
+hz_harness!(hz_mix_columns, 16, 40, |inp| {
+    ni_model::set_cpu(true);
     let blk: [u8; 16] = take(inp, 0);
     let mut b = blk.into();
     hazmat::mix_columns(&mut b);
     Some(b.0 == ra::mix_columns(&blk))
 });
-//@ harness name=hz_inv_mix_columns prop=C17,C03 tier=quick bits=129 stub=1 est=100 variants=aes:ni+hazmat desc="hazmat::inv_mix_columns == FIPS-197 InvMixColumns for all 2^128 blocks on either dispatch arm (CPUID symbolic)"
-hz_harness!(hz_inv_mix_columns, 17, 40, |inp| {
-    ni_model::set_cpu(inp[16] & 1 == 1);
+//@ harness name=hz_inv_mix_columns prop=C17,C03 tier=quick bits=128 stub=1 est=100 variants=aes:ni+hazmat desc="hazmat::inv_mix_columns == FIPS-197 InvMixColumns for all 2^128 blocks on the intrinsics arm (AESIMC model)"
+hz_harness!(hz_inv_mix_columns, 16, 40, |inp| {
+    ni_model::set_cpu(true);
     let blk: [u8; 16] = take(inp, 0);
     let mut b = blk.into();
     hazmat::inv_mix_columns(&mut b);
